@@ -67,8 +67,13 @@ class Model:
                 vals[name] = v
             else:
                 vals[name] = [default] * n
+        act = [True] * n
+        if "flags" in give and n and mode != "scalar":
+            # the state's own flag given as 0 / 1 integers (what a release file column delivers)
+            act = [bool((c + 1) % 2) for c in cs]
+            kw["active"] = np.array([int(a) for a in act], int)
         for k in range(n):
-            self.recs.append(dict(pid=self.npid, X=X[k], Y=Y[k], Z=Z[k], alive=True, active=True,
+            self.recs.append(dict(pid=self.npid, X=X[k], Y=Y[k], Z=Z[k], alive=True, active=act[k],
                                   age=vals["age"][k], w=vals["w"][k], tag=vals["tag"][k]))
             self.pv["X0"].append(vals["X0"][k])
             self.pv["born"].append(vals["born"][k])
@@ -185,8 +190,8 @@ def invariant(state, model: Model, res: core.CaseResult, where):
                 res.fail("pvar_value", f"{where}: {var}[pid {p}] = {got!r}, model {model.pv[var][p]!r}")
                 return False
     # dtypes must not drift
-    res.check(state["pid"].dtype.kind == "i" and state["alive"].dtype == bool and state["tag"].dtype.kind == "i"
-              and state["X"].dtype == np.float64, "dtype_drift",
+    res.check(state["pid"].dtype.kind == "i" and state["alive"].dtype == bool and state["active"].dtype == bool
+              and state["tag"].dtype.kind == "i" and state["X"].dtype == np.float64, "dtype_drift",
               f"{where}: dtypes pid={state['pid'].dtype} alive={state['alive'].dtype} tag={state['tag'].dtype}")
     return True
 
@@ -222,7 +227,7 @@ ALPHABET = [
     ("append", 1, (), "scalar"),
     ("append", 2, ("age", "X0"), "array"),
     ("append", 3, ("w",), "broadcast"),
-    ("append", 2, ("tag", "born", "X0"), "array"),
+    ("append", 2, ("tag", "born", "X0", "flags"), "array"),
     ("kill", 0b0001, "inplace"),       # first
     ("kill", 0b1010101010101010, "assign"),  # every second, starting at index 1
     ("kill", 0b0101010101010101, "inplace"),  # every second, starting at index 0
@@ -244,7 +249,7 @@ def exhaustive_shard(prefixes, maxlen, known):
     return st_
 
 
-gives = st.lists(st.sampled_from(["age", "w", "tag", "X0", "born"]), unique=True, max_size=5).map(sorted)
+gives = st.lists(st.sampled_from(["age", "w", "tag", "X0", "born", "flags"]), unique=True, max_size=6).map(sorted)
 op_strategy = st.one_of(
     st.tuples(st.just("append"), st.integers(0, 6), gives, st.sampled_from(["array", "broadcast", "scalar"])),
     st.tuples(st.just("kill"), st.integers(0, 2**16 - 1), st.sampled_from(["inplace", "assign", "assign_int", "assign_list"])),
